@@ -82,7 +82,7 @@ impl Property for C13 {
          boundaries, and the ` --> file:line:col:` lines of the printed diagnostics must equal, one by one, the 1-based line and character column computed independently from the byte offset. \
          PART B (single fault): a generated valid program (size-static instruction set, banks, nested labels) with non-ASCII comment lines and trailing comments and (one in three) a chunk \
          moved to an #include'd file; one fault is injected at an item position drawn from the tape - unknown mnemonic, undefined symbol operand, operand beyond every typed range, duplicate \
-         label, malformed directive (`#d8 ,`, `#align`, `#nosuchdirective 1`) - the reference assembler must reject exactly that item, and the FIRST top-level error must be located in the \
+         label, malformed directive (`#d8 ,`, `#align`, `#nosuchdirective 1`, a misspelled field behind valid ones in a `#bankdef` block) - the reference assembler must reject exactly that item, and the FIRST top-level error must be located in the \
          right file on the faulty line. Non-trivial = (A) a message with a location in a file containing a multi-byte character before it, (B) a multi-byte character precedes the fault in \
          the same file or the fault is in the included file; distinct by hash of the files."
             .to_string()
@@ -140,7 +140,16 @@ impl Property for C13 {
             return Verdict::Pass;
         }
         // positions where a fault can be injected
-        let cands: Vec<usize> = prog.items.iter().enumerate().filter(|(_, it)| matches!(it, Item::Instr(_) | Item::Data { .. } | Item::Label { .. })).map(|x| x.0).collect();
+        let v2 = crate::engine::gen_version() >= 2;
+        let cands: Vec<usize> = prog
+            .items
+            .iter()
+            .enumerate()
+            .filter(|(_, it)| matches!(it, Item::Instr(_) | Item::Data { .. } | Item::Label { .. }) || (v2 && matches!(it, Item::BankDef(_))))
+            .map(|x| x.0)
+            .collect();
+        // for a fault inside a multi-line item: the line of the fault relative to the item's first line
+        let mut fault_line_offset = 0usize;
         if cands.is_empty() {
             ctx.skipped = true;
             return Verdict::Pass;
@@ -198,6 +207,22 @@ impl Property for C13 {
                     prog.items[at] = Item::Raw(txt.to_string());
                     kind = k;
                 }
+            }
+            Item::BankDef(b) => {
+                // v2: a misspelled field name behind at least one valid field of the block
+                let text = crate::model::program::bankdef_text(&b);
+                let mut lines: Vec<String> = text.lines().map(|l| l.to_string()).collect();
+                let nfields = lines.len() - 3; // "#bankdef x", "{", fields..., "}"
+                if nfields == 0 {
+                    ctx.skipped = true;
+                    return Verdict::Pass;
+                }
+                let after = t.urange(1, nfields); // behind the first..last field
+                let bad = *t.pick(&["    sizee = 4", "    adr = 0", "    output = 0", "    bitz = 8"]);
+                lines.insert(2 + after, bad.to_string());
+                fault_line_offset = 2 + after;
+                prog.items[at] = Item::Raw(lines.join("\n"));
+                kind = "malformed-directive:unknown-bank-field";
             }
             Item::Label { dots, name } => {
                 // declare the same label a second time right after it
@@ -277,7 +302,7 @@ impl Property for C13 {
             }
             _ => None,
         };
-        let want = (loc.file.clone(), loc.line + 1);
+        let want = (loc.file.clone(), loc.line + 1 + fault_line_offset);
         if place.as_ref() != Some(&want) {
             ctx.want_render = true;
             ctx.render(render);
